@@ -39,15 +39,16 @@ ob("chunk_indices_seek", "C04", entry="h_chunk_indices_seek", enforce="update_ch
 # ----------------------------------------------------------------------------- mcache.c
 # bounded protocol runs on heaps built by the real mcache_open/mcache_get; 128 = HASHSIZE loops
 MC = dict(unit="mcache_u.c", file="hdf/src/mcache.c", mode="bounded", objbits=10, unwind=5, cex_unwind=5,
-          flags=["--unwindset", "mcache_open.0:129,mcache_open.3:129,mcache_close.2:129"],
+          flags=["--unwindset", "mcache_open.0:129,mcache_open.3:129,mcache_close.2:129",
+                 "--max-field-sensitivity-array-size", "300"],
           trusted=["st_pgin/st_pgout: page callbacks modelled as a byte store per page number"])
-ob("mcache_protocol", "C04", entry="h_mcache_protocol", timeout=900,
+ob("mcache_protocol", "C04", entry="h_mcache_protocol", timeout=300,
    bound="<=3 pages, cache size 1..2, 3 get/put steps (pages may stay pinned), page size 2 bytes, allocation succeeds", **MC)
-ob("mcache_close", "C04", entry="h_mcache_close", timeout=900,
+ob("mcache_close", "C04", entry="h_mcache_close", timeout=300,
    bound="<=3 pages, cache size 1..2, 2 get/put steps, allocation succeeds", **MC)
-ob("mcache_evict_fail", "C04", entry="h_mcache_evict_fail", timeout=900,
+ob("mcache_evict_fail", "C04", entry="h_mcache_evict_fail", timeout=300,
    bound="2..3 pages, cache size 1, pgout fails once during eviction", **MC)
-ob("mcache_open_oom", "C04", entry="h_mcache_open_oom", timeout=900,
+ob("mcache_open_oom", "C04", entry="h_mcache_open_oom", timeout=300,
    bound="<=3 pages, any allocation inside mcache_open may fail", **MC)
 
 prop("C04",
